@@ -93,6 +93,7 @@ static ldb_bloom_t *g_bloom = NULL;
 static ldb_lru_t *g_cache = NULL;
 static int g_structural = 0;
 static int g_verify = 0;
+static int g_faultmode = 0; /* fault-injection run: a successful open is followed by a dump of everything recovered */
 static int g_nowait = 0;   /* do not wait for background quiescence after each call (crash histories) */   /* read with verify_checksums */
 #define MAXSNAP 64
 static const ldb_snapshot_t *g_snap[MAXSNAP];
@@ -549,7 +550,13 @@ static void crash_points(int from, int to, int stride, const char *vars, const c
 }
 
 static void handle(char *line) {
-  static char *f[MAXF]; int nf = split_fields(line, f, MAXF);
+  static char *f[MAXF]; int nf;
+  if (!strncmp(line, "ensureopen ", 11)) {
+    /* ensureopen <dir> [opts]: `open` unless a handle is open already (after opens that may have failed under a fault) */
+    if (g_db) { printf("ensureopen noop\n"); return; }
+    memmove(line + 4, line + 10, strlen(line + 10) + 1); memcpy(line, "open", 4);
+  }
+  nf = split_fields(line, f, MAXF);
   if (nf >= 2 && !strcmp(f[0], "open")) {
     int rc;
     if (g_db) { printf("err already open\n"); return; }
@@ -562,6 +569,7 @@ static void handle(char *line) {
     if (rc != LDB_OK) { g_db = NULL; if (prevcmp) { g_opt = prev; g_cmpname = prevcmp; g_fold = prevfold; } } }
     flush_bg_events();
     printf("open %d cmp=%s\n", rc, g_cmpname);
+    if (g_db && g_faultmode) { t_nofault++; printf("recovered %llu ", (unsigned long long)g_db->versions->last_sequence); dump_internal(g_db); fputc('\n', stdout); t_nofault--; }
     if (g_journal) jprint_new();
     if (g_db) { wait_quiescent(); flush_bg_events(); g_structural = 0; dump_ver(); dump_mem("mem", g_db->mem); }
   } else if (nf == 1 && !strcmp(f[0], "close")) {
@@ -727,6 +735,7 @@ static void handle(char *line) {
     dump_ver(); 
     ldb_mutex_lock(&g_db->mutex); dump_mem("mem", g_db->mem); ldb_mutex_unlock(&g_db->mutex);
   } else if (nf == 1 && !strcmp(f[0], "faultmode")) {
+    g_faultmode = 1;
     printf("faultmode\n");
   } else if (nf == 2 && !strcmp(f[0], "journal")) {
     g_journal = !strcmp(f[1], "on");
